@@ -5,4 +5,5 @@ CONSTANTS
   MaxEnv = 5
   MaxInc = 2
   MaxRaise = 1
+  MaxBlock = 0
 CHECK_DEADLOCK FALSE
